@@ -103,7 +103,7 @@ func cmdOutline(fs *flag.FlagSet) {
 	layouts := fs.Int("layouts", 2, "layouts")
 	shards := fs.Int("shards", 8, "shards")
 	fs.Parse(os.Args[2:])
-	startWatchdog(20 * time.Second)
+	startWatchdog(60 * time.Second)
 	f, err := os.Open(*in)
 	if err != nil {
 		fatal("open: %v", err)
